@@ -251,6 +251,64 @@ def features(body):
     return out
 
 
+def nested_try_family():
+    """Targeted exhaustive family (quick tier): try statements nested INSIDE the finally block / a handler / the else
+    block of another try, so that the lifetimes of `finally_section_has_direct_flow`, `pending_finally_sections` and
+    `finally_section_subgraphs` of two (or three) try statements overlap.  All combinations of
+      place      where the inner try sits in the outer try: finally / handler / else
+      inner      shape of the inner try: finally only / handler+finally / handler only
+      ending     how the inner try body ends: falls through / return / raise / break / continue
+      wrap       inner try unconditional / under `if` / in the `else` of an `if`
+      reach      how the outer try body ends (outer finally reached by fall-through or by a jump)
+      outer_fin  outer try has a finally block (forced when place = finally)
+      deep       the inner finally block itself contains a third try/finally whose body jumps
+      tail       a statement follows the inner try inside the part / follows the outer try
+    break/continue variants are wrapped in a loop.  Returns a list of function bodies (same tree format as `Space`)."""
+    S = ('S',)
+    ends = {'fall': [S], 'ret': [('RET',)], 'raise': [('RAISE',)], 'brk': [('BRK',)], 'cont': [('CONT',)]}
+    out = []
+    for place in ('finally', 'handler', 'else'):
+        for inner in ('fin', 'hfin', 'h'):
+            for ending in ('fall', 'ret', 'raise', 'brk', 'cont'):
+                for wrap in ('none', 'if', 'ifelse'):
+                    for reach in ('fall', 'ret', 'raise', 'brk', 'cont'):
+                        for outer_fin in (True, False):
+                            if place == 'finally' and not outer_fin:
+                                continue
+                            for deep in (False, True):
+                                if deep and inner == 'h':
+                                    continue
+                                for tail in (0, 1, 2, 3):
+                                    ifin = [S]
+                                    if deep:
+                                        ifin = [('TRY', list(ends[ending if ending != 'fall' else 'ret']), [], [], [S]), S]
+                                    itry = ('TRY', [S] + list(ends[ending]) if ending == 'fall' else list(ends[ending]),
+                                            [[S]] if inner in ('hfin', 'h') else [], [],
+                                            ifin if inner in ('fin', 'hfin') else [])
+                                    if wrap == 'none':
+                                        part = [itry]
+                                    elif wrap == 'if':
+                                        part = [('IF', [itry], [])]
+                                    else:
+                                        part = [('IF', [S], [itry])]
+                                    if place == 'else':
+                                        part = [S] + part          # a try-else block must not start with `if` (known crash)
+                                    if tail & 1:
+                                        part = part + [S]
+                                    obody = [S] + list(ends[reach]) if reach == 'fall' else list(ends[reach])
+                                    if place == 'finally':
+                                        otry = ('TRY', obody, [], [], part)
+                                    elif place == 'handler':
+                                        otry = ('TRY', obody, [part], [], [S] if outer_fin else [])
+                                    else:
+                                        otry = ('TRY', obody, [[S]], part, [S] if outer_fin else [])
+                                    body = [otry] + ([S] if tail & 2 else [])
+                                    if 'brk' in (ending, reach) or 'cont' in (ending, reach):
+                                        body = [('WHILE', body, []), S]
+                                    out.append(body)
+    return out
+
+
 def sample_indices(size, cap, seed):
     """All indices when size <= cap, else a stride sample with a seed-derived offset (different seeds cover
     different residues).  Returns (indices, exhaustive, stride, offset)."""
